@@ -11,7 +11,7 @@
 From Coq Require Import List NArith Bool Arith.
 Import ListNotations.
 From Verif Require Import PolSemantic PolConcrete PolTruth
-  PolSemanticProofs PolMinKeysProofs PolEntailsProofs PolConcreteProofs.
+  PolSemanticProofs PolMinKeysProofs PolEntailsProofs PolConcreteProofs PolOracleProofs.
 
 (* ---------------------------------------------------------------- normalized / sorted *)
 Theorem C18_normalized_eval : forall rho p, evalA rho (normalized p) = evalA rho p.
@@ -172,13 +172,30 @@ Theorem C18_mixed_exact : forall p, cwf p = true -> all_sat p = true ->
 Proof. exact mixed_exact. Qed.
 Print Assumptions C18_mixed_exact.
 
+(* ---------------------------------------------------------------- the per-run oracle *)
+(* the executable truth-table checks that Tables/PolicyCasesCheck.v applies to the
+   implementation's own outputs decide the propositions used above *)
+Theorem C18_oracle_decides :
+  (forall p o, cex_equiv p o = None <-> forall rho, evalA rho p = evalA rho o) /\
+  (forall a p o, cex_age a p o = None <-> forall rho, evalA (restrict_age a rho) p = evalA rho o) /\
+  (forall n p o, cex_lock n p o = None <-> forall rho, evalA (restrict_lock n rho) p = evalA rho o) /\
+  (forall c o, cex_lift c o = None <-> forall rho, evalC rho c = evalA rho o) /\
+  (forall p q, implies_b p q = true <-> implies p q) /\
+  (forall p, is_min_sigs p (min_sigs_b p)) /\
+  (forall c, mixed_b c = true <-> has_mixed_path c).
+Proof.
+  exact (conj cex_equiv_spec (conj cex_age_spec (conj cex_lock_spec (conj cex_lift_spec
+        (conj implies_b_spec (conj min_sigs_b_spec mixed_b_spec)))))).
+Qed.
+Print Assumptions C18_oracle_decides.
+
 (* ---------------------------------------------------------------- non-vacuity *)
 Example C18_nonvacuous_normal :
   is_normal (SThresh 2 [SKey 0; SThresh 1 [SKey 1; SOlder 5]; SAfter 100]) = true /\
   entails_defect (SThresh 2 [SKey 0; SKey 1]) (SThresh 1 [SKey 0; SKey 2]) = false /\
   entails (SThresh 2 [SKey 0; SKey 1]) (SThresh 1 [SKey 0; SKey 2]) = ESome true /\
   entails (SThresh 1 [SKey 0; SKey 2]) (SThresh 2 [SKey 0; SKey 1]) = ESome false.
-Proof. repeat split; reflexivity. Qed.
+Proof. vm_compute. repeat split; reflexivity. Qed.
 Example C18_nonvacuous_concrete :
   let p := CThresh 2 [COlder 5; COlder 4194309; CKey 0] in
   cwf p = true /\ all_sat p = true /\ and_arity_bad p = false /\ check_timelocks p = false /\
